@@ -32,8 +32,9 @@ package barriers
 //@   ensures err != nil ==> typeis(result, *barrierErr) && result.(*barrierErr).maskedErr == err
 
 //@ func decodeBarrier
-//@   props C05 C01 C07 C03
+//@   props C05 C01 C07 C03 C06
 //@   requires[C03] rsafe(msg)
+//@   requires[C06] wfR(msg)
 //@   requires[C03,C12] typeis(payload, *errorspb.EncodedError) && payload.(*errorspb.EncodedError).Error != nil ==> safeEnc(deref(payload.(*errorspb.EncodedError)))
 //@   requires typeis(payload, *errorspb.EncodedError) && payload.(*errorspb.EncodedError).Error != nil ==> complete(deref(payload.(*errorspb.EncodedError)))
 //@   ensures typeis(payload, *errorspb.EncodedError) && payload.(*errorspb.EncodedError).Error != nil ==> typeis(result, *barrierErr) && result.(*barrierErr).smsg == msg
